@@ -552,6 +552,32 @@ def run(ctx):
 
 
 def replay(ctx, path):
+    """A sandbox escape is re-executed alone: the named binding, under the recorded capability set and thread mode, every
+    argument shape; reported again (same signature) when the same OS call is still performed with the capability disabled.
+    Any other record (flag word / keyword difference, uncovered path, broken obligation) re-runs the whole check."""
     r = json.load(open(path))
     print(json.dumps(r, indent=1)[:3000])
-    return run(ctx)
+    if r.get("kind") != "sandbox-escape" or not isinstance(r.get("observed"), dict):
+        return run(ctx)
+    v0 = r["observed"]
+    try:
+        ctx.build.boot()
+        hx = ctx.build.harness("plain", "c18sweep", [os.path.join(VERIF, "harness/C18/sweep.c")],
+                               extra_ld=["-Wl," + ",".join("--wrap=" + w for w in WRAPPED)])
+    except BuildError as e:
+        ctx.violation("build-failed", {"kind": "build", "error": str(e)}, found=False, what="tree does not build")
+        return ctx.finish("proof", {"evaluations": 0, "distinct_nontrivial": 0})
+    M = gen.Model()
+    M.sens = gen.cap_tables()[0]
+    res = run_config(hx, v0["caps"], v0["mode"], "full", v0["binding"], 120, "replay")
+    vs, _, ncalls, nsens = analyse(M, res, {})
+    same = [v for v in vs if v["binding"] == v0["binding"] and v["call"] == v0["call"] and v["disabled"] == v0["disabled"]]
+    ctx.say("replay: (sandbox %s), %s thread, %s: %d calls, %d sensitive OS calls, %d escapes of which %d are the recorded one" %
+            (v0["caps"], v0["mode"], v0["binding"], ncalls, nsens, len(vs), len(same)))
+    for v in same[:1]:
+        ctx.violation(r.get("signature", "escape:%s:%s:%s" % (v["binding"], v["call"], v["disabled"])),
+                      {"kind": "sandbox-escape", "janet": janet_source(v), "observed": v, "expected": r.get("expected")},
+                      what="(sandbox %s) then %s performs %s %s [%s thread, flag word %#x]" % (v["caps"], v["binding"], v["call"], v["detail"], v["mode"], v["flags"]))
+    return ctx.finish("proof", {"evaluations": ncalls, "distinct_nontrivial": nsens,
+                                "rule": "replay of one recorded escape: the binding alone, every argument shape, recorded capability set and thread mode",
+                                "samples": [janet_source(v0)]})
